@@ -527,34 +527,6 @@ func (s *session) attribute(v *verdict, rerun func() (*session, *verdict)) {
 		return
 	}
 
-	// ---- recorder defects 2 and 3 (c20-fix2, c20-fix3), from the release schedule
-	if s.video != nil {
-		pr := probes[1]
-		stale, released, goodKfAt := s.video.staleInfo(pr.pin)
-		staleAt := func(i int) bool {
-			for g := i; g >= 0; g-- {
-				if s.video.frames[g].key && released[g] {
-					return stale[g]
-				}
-			}
-			return false
-		}
-		closingFlush := len(s.openFds) > 0 && s.audio != nil && goodKfAt == len(s.video.feed)
-		for _, f := range v.open() {
-			switch {
-			case closingFlush && (f.symptom == "file-left-open" || f.symptom == "frame-missing" || f.symptom == "not-flushed" || f.symptom == "malformed-container"):
-				f.key = "closing-flush-creates-file"
-				f.what += "; no video keyframe had been released by the sample builder before the closing call (its forced flush released the first one), so the file was created during the close, after the audio writer had already been closed"
-			case f.trk == 1 && f.frame >= 0 && (f.symptom == "frame-missing" || f.symptom == "not-flushed") && staleAt(f.frame):
-				f.key = "stale-keyframe"
-				f.what += " (its keyframe was released by the sample builder only after the first packet of another keyframe had arrived)"
-			}
-		}
-	}
-	if len(v.open()) == 0 {
-		return
-	}
-
 	// ---- sender reports: replay the session without them
 	if rerun != nil && s.hasMidstreamSR() {
 		s2, v2 := rerun()
@@ -601,6 +573,34 @@ func (s *session) attribute(v *verdict, rerun func() (*session, *verdict)) {
 				}
 			}
 		}
+	}
+
+	// ---- recorder defects 2 and 3 (c20-fix2, c20-fix3), from the release schedule
+	if s.video != nil {
+		pr := probes[1]
+		stale, released, goodKfAt := s.video.staleInfo(pr.pin)
+		staleAt := func(i int) bool {
+			for g := i; g >= 0; g-- {
+				if s.video.frames[g].key && released[g] {
+					return stale[g]
+				}
+			}
+			return false
+		}
+		closingFlush := len(s.openFds) > 0 && s.audio != nil && goodKfAt == len(s.video.feed)
+		for _, f := range v.open() {
+			switch {
+			case closingFlush && (f.symptom == "file-left-open" || f.symptom == "frame-missing" || f.symptom == "not-flushed" || f.symptom == "malformed-container"):
+				f.key = "closing-flush-creates-file"
+				f.what += "; no video keyframe had been released by the sample builder before the closing call (its forced flush released the first one), so the file was created during the close, after the audio writer had already been closed"
+			case f.trk == 1 && f.frame >= 0 && (f.symptom == "frame-missing" || f.symptom == "not-flushed") && staleAt(f.frame):
+				f.key = "stale-keyframe"
+				f.what += " (its keyframe was released by the sample builder only after the first packet of another keyframe had arrived)"
+			}
+		}
+	}
+	if len(v.open()) == 0 {
+		return
 	}
 
 	for _, f := range v.open() {
